@@ -182,7 +182,7 @@ theorem host_sees_done_exactly (settle : Nat → World → Option World) (wk : W
     (pollNextF settle wk cid w = some (.pending, w') → w'.isDoneNow cid = false) :=
   ⟨pollNextF_finished settle wk cid w w', pollNextF_pending settle wk cid w w'⟩
 
-/-- COMPLETENESS of eviction, the one-request case (`…_partial`: the full statement `evict_complete_goal` below quantifies
+/-- COMPLETENESS of eviction, the one-request case (`…_partial`: the full statement `evict_complete_anywhere` below quantifies
     over whole commands): a task suspended at a one-shot request (command API) whose `Request` the shell has dropped is
     discarded as `Cancelled` by its next poll — the poll learns that the channel is closed and registers no waker — given
     that the serial handed to this poll's waker is fresh (held nowhere, not flagged; serials come from a counter) and
@@ -225,12 +225,92 @@ theorem evict_complete_dropped_request_reachable (c : Cmd) (canon : Bool) (acts 
   have hf := (M.Hosts.runDirect_fresh c canon acts os d hrun).next_unheld
   exact dropped_request_evicts pn f cid tid d.w t env x l rest hg hfut hab hq hs hl hf.1 hf.2
 
-/-- STATED, NOT PROVED: completeness of eviction — a command whose tasks wait only on shell requests reports done once
-    all of them have been resolved or dropped. True of the DSL fragment modelled here (checked by the correspondence on
-    every run: `d`/`t` per step); known to be false for waker-retaining combinators (`FuturesUnordered`,
-    `flatten_unordered` behind `StreamBuilder::then_stream` on a stream), which the DSL does not contain — see DESIGN §5-C07. -/
-def evict_complete_goal : Prop :=
+/-- the first statement of completeness of eviction that was tried: in ANY world in which every request channel is closed and
+    empty, settling a command leaves it done. **REFUTED** (`evict_complete_anywhere_false` below), also for reachable worlds. -/
+def evict_complete_anywhere : Prop :=
   ∀ (w : World) (cid : Nat), (∀ l, l < w.leaves.length → (w.leaf l).senderAlive = false ∧ (w.leaf l).queue = []) →
     ∀ w', runUntilSettled cid w = some w' → w'.isDoneNow cid = true
+
+/-! ### Completeness of eviction is FALSE once a request future changes hands
+
+Found while trying to prove `evict_complete_anywhere`: `LPB` has no conclusion for a task that is pending only at requests whose
+channel has closed — such a task is retained iff a clone of its last waker survives *at the moment of the check*, and nothing
+keeps that clone alive afterwards. The witness below was then replayed on the implementation (corpus/C07/handoff-stranded,
+known finding `handed-off-request-strands-first-poller`): a task awaits request A, then polls request H once and moves it to a
+spawned task, joined with a wait for request B. The shell drops B, resolves A, resolves H. The poll after A leaves the first
+task pending on the dead B only, but its waker is still registered in H's channel, so `run_task` keeps it; the spawned task's
+first poll replaces that registration. Now nobody holds a waker of the first task: it is never polled again, never evicted,
+and the command never reports done although every request has been resolved or dropped. -/
+def handoffProg : List Instr :=
+  [.join [.req 1 1 (.lit 1), .handoff 2 2 (.lit 2) [.emit 10 (.var 2)]] [.req 3 3 (.lit 3)]]
+def handoffActs : List M.Hosts.Action := [.drop 1, .res 0 101, .res 2 102, .poll]
+
+/-- every request channel of the world is closed (resolved one-shot or dropped) and empty -/
+def allGone (w : World) : Bool := w.leaves.all fun lf => !lf.senderAlive && lf.queue.isEmpty
+
+theorem allGone_spec (w : World) (h : allGone w = true) (l : Nat) (hl : l < w.leaves.length) :
+    (w.leaf l).senderAlive = false ∧ (w.leaf l).queue = [] := by
+  unfold allGone at h
+  rw [List.all_eq_true] at h
+  have := h (w.leaves[l]) (List.getElem_mem hl)
+  simp only [World.leaf, List.getElem?_eq_getElem hl, Option.getD_some]
+  simpa using this
+
+/-- the witness, by kernel evaluation of the model (a test of ONE history — which is all a refutation needs): a host-free
+    task program and a history after which every channel is closed and empty, the ready queue is empty, one task is still
+    stored, and settling again does not make the command done -/
+theorem completeness_fails_with_handoff :
+    ∃ os d w', M.Hosts.runDirect (.task handoffProg) false handoffActs = some (os, d) ∧ hostFreeIs handoffProg = true ∧
+      allGone d.w = true ∧ (d.w.cmd d.cid).ready = [] ∧ (d.w.cmd d.cid).tasks.len = 1 ∧
+      runUntilSettled d.cid d.w = some w' ∧ w'.isDoneNow d.cid = false := by
+  have h : ((M.Hosts.runDirect (.task handoffProg) false handoffActs).bind fun r =>
+      (runUntilSettled r.2.cid r.2.w).map fun w' =>
+        (allGone r.2.w, (r.2.w.cmd r.2.cid).ready, (r.2.w.cmd r.2.cid).tasks.len, w'.isDoneNow r.2.cid)) =
+      some (true, [], 1, false) := by decide +kernel
+  cases hr : M.Hosts.runDirect (.task handoffProg) false handoffActs with
+  | none => rw [hr] at h; cases h
+  | some p =>
+    obtain ⟨os, d⟩ := p
+    rw [hr] at h
+    simp only [Option.bind_some] at h
+    cases hs : runUntilSettled d.cid d.w with
+    | none => rw [hs] at h; cases h
+    | some w' =>
+      rw [hs] at h
+      simp only [Option.map_some, Option.some.injEq, Prod.mk.injEq] at h
+      exact ⟨os, d, w', rfl, by decide, h.1, h.2.1, h.2.2.1, hs, h.2.2.2⟩
+
+theorem evict_complete_anywhere_false : ¬ evict_complete_anywhere := by
+  intro hg
+  obtain ⟨os, d, w', _, _, hall, _, _, hs, hd⟩ := completeness_fails_with_handoff
+  have := hg d.w d.cid (fun l hl => allGone_spec d.w hall l hl) w' hs
+  rw [hd] at this
+  cases this
+
+-- no `handoff` anywhere in the program
+mutual
+def handoffFreeI : Instr → Bool
+  | .handoff _ _ _ _ => false
+  | .stream _ _ _ _ body => handoffFreeIs body
+  | .spawn _ body => handoffFreeIs body
+  | .join a b => handoffFreeIs a && handoffFreeIs b
+  | .select a b => handoffFreeIs a && handoffFreeIs b
+  | _ => true
+def handoffFreeIs : List Instr → Bool
+  | [] => true
+  | i :: is => handoffFreeI i && handoffFreeIs is
+end
+
+/-- STATED, NOT PROVED: completeness of eviction where no request future changes hands — for every host-free task program
+    without `handoff` under the direct host, after every history that leaves every request channel closed and empty, the
+    command is done. No counterexample in ≥ 10^6 generated histories of the `complete` stream (every rejection of its oracle
+    clause is a `handoff` program); the proof needs, on top of `GInv` and the invariant "a registered waker means a live
+    sender", that a stored unqueued task holds a registration of its last waker (the clone count `run_task` read stays ≥ 1
+    until the task is woken — exactly what `handoff` breaks). Known to be false outside the DSL for waker-retaining
+    combinators (known finding retaining-combinator-never-evicted). -/
+def evict_complete_handoff_free_goal : Prop :=
+  ∀ (is : List Instr), hostFreeIs is = true → handoffFreeIs is = true →
+    ∀ (canon : Bool) (acts : List M.Hosts.Action) (os : List M.Hosts.Obs) (d : M.Hosts.Direct),
+      M.Hosts.runDirect (.task is) canon acts = some (os, d) → allGone d.w = true → d.w.isDoneNow d.cid = true
 
 end Props.C07
